@@ -18,7 +18,7 @@ def run(ctx):
     if ctx.replay:
         return streams.replay(ctx)
     import modelcheck
-    mc = modelcheck.run_parser_model(ctx, PROPS)
+    mc = modelcheck.run_parser_model(ctx, PROPS, cbfail_ok=False)
     scns = scenarios(ctx)
     exe = vlib.build(ctx, "san", ["rec"])["rec"]
     files = streams.run_rec(ctx, exe, scns, "c05")
